@@ -532,8 +532,9 @@ func c18RefillThreshold(p *Prog, r *Report) {
 // R18.8: Decoder.Decode gives the caller a freshly built policy. It must not reach through pointers already stored in the
 // destination (storage a previous Decode handed out): values copied from the destination earlier would change under
 // the caller's feet.
-func c18FreshDestination(p *Prog, r *Report) {
-	const rule = "R18.8-fresh-destination"
+func c18FreshDestination(p *Prog, r *Report) { c18FreshDestinationAs(p, r, "R18.8-fresh-destination") }
+
+func c18FreshDestinationAs(p *Prog, r *Report, rule string) {
 	n := 0
 	for _, name := range []string{"Decoder.Decode", "Policy.UnmarshalCedar", "Policy.UnmarshalJSON"} {
 		fn := p.fn(pRoot, name)
@@ -563,6 +564,53 @@ func c18FreshDestination(p *Prog, r *Report) {
 			}
 			if _, isPtr := ld.Type().Underlying().(*types.Pointer); isPtr {
 				reuses = "loads the pointer stored in field " + itoa(fa.Field) + " of the destination"
+			}
+		})
+		// and what it builds the new policy from is storage of this call: a pointer into the decoder (or any other
+		// parameter) handed to a constructor that keeps it makes every decoded policy share that one object
+		forEachInstr(fn, func(in ssa.Instruction) {
+			c, ok := in.(*ssa.Call)
+			if !ok || c.Call.IsInvoke() || c.Call.StaticCallee() == nil || fnPkgPath(c.Call.StaticCallee()) != pRoot {
+				return
+			}
+			if nt := namedOf(c.Type()); nt == nil || nt.Obj().Name() != "Policy" {
+				return
+			}
+			for _, a := range c.Call.Args {
+				if _, isPtr := a.Type().Underlying().(*types.Pointer); !isPtr {
+					continue
+				}
+				v := a
+				for {
+					switch x := v.(type) {
+					case *ssa.ChangeType:
+						v = x.X
+						continue
+					case *ssa.Convert:
+						v = x.X
+						continue
+					}
+					break
+				}
+				if fa, ok := v.(*ssa.FieldAddr); ok {
+					root := fa.X
+					for {
+						if f2, ok := root.(*ssa.FieldAddr); ok {
+							root = f2.X
+							continue
+						}
+						if ld, ok := root.(*ssa.UnOp); ok && ld.Op == token.MUL {
+							if f2, ok := ld.X.(*ssa.FieldAddr); ok {
+								root = f2.X
+								continue
+							}
+						}
+						break
+					}
+					if _, isParam := root.(*ssa.Parameter); isParam && root != ssa.Value(dest) {
+						reuses = "builds the policy from storage that lives in " + root.Name() + " (a member that outlasts the call)"
+					}
+				}
 			}
 		})
 		r.Check(reuses == "", rule, "cedar."+name, p.pos(fn.Pos()), "the destination is overwritten as a whole; nothing it pointed to is reused",
